@@ -31,7 +31,7 @@ ASSUMPTIONS = [
 FLOORS = {'if_cases': 500, 'poisoned_unselected': 200, 'andor_cases': 500,
           'not_cases': 50, 'spy_calls': 1000, 'omitted_else': 20,
           'reassigned_cases': 100, 'foreign_namespace_evaluations': 10,
-          'long_range_cases': 32}
+          'long_range_cases': 32, 'blank_only_cases': 12}
 ANCHOR_FUNCS = {
     'xlcalculator/xlfunctions/logical.py': ['IF', 'AND', 'OR', 'NOT'],
     'xlcalculator/ast_nodes.py': ['FunctionNode.eval'],
@@ -500,6 +500,33 @@ def run(ctx):
     flush()
     if ctx.shard % 2 == 1:
         foreign_namespace()
+
+    # ---- nothing but blanks: the statement does not say what AND/OR of no
+    # element at all is, but it is the same "no element" however the blanks
+    # are handed over (one reference, two, a range, a cleared cell) ----------
+    if ctx.shard in (4, 5) or thorough:
+        for fn in ('AND', 'OR'):
+            forms = [f'={fn}(Z9)', f'={fn}(Z9,Z8)', f'={fn}(Z8:Z9)',
+                     f'={fn}(Y5)', f'={fn}(Z9,Z8:Z9,Y5)',
+                     f'=IF({fn}(Z9),1,2)=IF({fn}(Z8:Z9),1,2)']
+            ev_ = Evaluator(subject.compile_dict(
+                dict({'Y5': 3}, **{f'Q{i + 1}': f for i, f in
+                                   enumerate(forms)})))
+            ev_.set_cell_value(f'{S}!Y5', None)          # a cleared cell
+            outs = [subject.outcome_of(lambda i=i: ev_.evaluate(
+                f'{S}!Q{i + 1}')) for i in range(len(forms))]
+            ctx.event('blank_only_cases', len(forms))
+            ctx.case(('blank-only', fn))
+            kinds = {str(o) for o in outs[:-1]}
+            last_ok = outs[-1] == ('value', ('bool', True)) or \
+                outs[-1][0] == 'raised' or (
+                    outs[-1][0] == 'value' and outs[-1][1][0] == 'err')
+            if len(kinds) > 1 or not last_ok:
+                ctx.fail(f'{fn} of nothing but blanks depends on how the '
+                         f'blanks are handed over: '
+                         f'{list(zip(forms, outs))}',
+                         {'formulas': forms, 'observed': outs},
+                         monitor='lazy-selection', group=f'blank-only:{fn}')
 
     # ---- long ranges: the deciding element comes after more than 100 elements
     # that are FALSE / 0 (values, not blanks) --------------------------------
